@@ -159,3 +159,8 @@ mod test {
     Ok(())
   }
 }
+
+#[cfg(feature = "verif-hooks")]
+pub mod verif_hooks {
+  pub use crate::match_tree::verif_hooks::*;
+}
